@@ -51,6 +51,10 @@ struct Registration {
 pub struct Timer {
     registration: Option<Registration>,
     deadline: Option<Instant>,
+    /// Whether the timer currently takes part in an event loop: not before its first registration,
+    /// and not while it is disabled. (`registration` cannot tell: a timer whose deadline has
+    /// overflowed takes part without an arming.)
+    registered: bool,
 }
 
 impl Timer {
@@ -73,6 +77,7 @@ impl Timer {
         Timer {
             registration: None,
             deadline,
+            registered: false,
         }
     }
 
@@ -160,6 +165,7 @@ impl EventSource for Timer {
                 counter,
             });
         }
+        self.registered = true;
 
         Ok(())
     }
@@ -169,6 +175,11 @@ impl EventSource for Timer {
         poll: &mut Poll,
         token_factory: &mut TokenFactory,
     ) -> crate::Result<()> {
+        // A timer that does not take part in the loop (it has been disabled) is not armed by an
+        // update: only `register()` (`enable()`) brings it back.
+        if !self.registered {
+            return Ok(());
+        }
         self.unregister(poll)?;
         self.register(poll, token_factory)
     }
@@ -177,6 +188,7 @@ impl EventSource for Timer {
         if let Some(registration) = self.registration.take() {
             poll.timers.borrow_mut().cancel(registration.counter);
         }
+        self.registered = false;
         Ok(())
     }
 }
